@@ -4,6 +4,7 @@ import (
 	"bytes"
 	"encoding/json"
 	"fmt"
+	"github.com/tailscale/setec/types/api"
 	"io/fs"
 	"math/rand/v2"
 	"path/filepath"
@@ -11,6 +12,11 @@ import (
 )
 
 type randT = rand.Rand
+
+// preRecords: extra records a property emits before its histories
+var preRecords = map[string]func(work string) []Record{}
+
+func apiVer(v uint32) api.SecretVersion { return api.SecretVersion(v) }
 
 func sprintf(f string, a ...any) string { return fmt.Sprintf(f, a...) }
 
@@ -280,6 +286,11 @@ func runDBProfile(o Opts, p *dbProfile, post func(rec *Record, in DBInput, obs [
 		out.Emit(rec)
 	}
 	idx := 0
+	if pre := preRecords[p.Name]; pre != nil && o.Replay == "" {
+		for _, rec := range pre(work) {
+			out.Emit(rec)
+		}
+	}
 	if o.Replay != "" {
 		for _, in := range readInputs[DBInput](o.Replay) {
 			emit(runDBHistory(work, idx, p, in, nil, 0))
